@@ -123,6 +123,9 @@ pub fn process_exec(sc: &Scenario, stream: Vec<u8>, sched: usize) -> Exec {
     let s = sc.sched(sched);
     ex.chunks = s.chunks;
     ex.susp = s.susp;
+    // half of the scenarios use a transport whose read is not cancel-safe (schedule 0, the
+    // reference, never suspends, so it is unaffected)
+    ex.read_takes_first = sc.flag("take_first") && sched > 0;
     ex
 }
 
